@@ -22,8 +22,10 @@ PROP = {
                   "200; public routes are reachable; first-run routes answer 403 to everybody after installation; a "
                   "logged-out cookie is dead. TestVFC11RouteCoverage fails if a route literal in a registration call "
                   "anywhere under internal/ is unknown to the assembled mux.",
-    "level_note": "Requests are served in-process through mux.ServeHTTP (not over a socket; the HTTP/1.1 request-line "
-                  "parser of net/http is trusted). /control/version.json and the file server are registered without a "
+    "level_note": "Most requests are served in-process through mux.ServeHTTP; TestVFC11RawRequestLine writes raw "
+                  "request lines (percent-encoded dot segments, letters and slashes, absolute-form and network-path "
+                  "targets, path parameters, backslashes, HTTP/1.0 without Host) to a loopback net/http server with "
+                  "the same handler and judges them the same way (net/http's own 400/505 pages count as refused). /control/version.json and the file server are registered without a "
                   "declared method by the code and are exempt from the 405/415 assertion (they still require "
                   "authentication). State-changing handlers are never executed with valid credentials.",
     "tests": [
